@@ -332,6 +332,31 @@ def lean_request(scn, obs, jobfirst=()):
 # --------------------------------------------------------------------------- oracle (L3)
 
 
+def _realtime_class(scn, obs, i, rl):
+    """real time: which clause certainly applies to job i, robust to scheduling delays (sleeps only overshoot):
+    'none' (no timeout requested in its call), 'before' (it really returned >= 0.25 s before the earliest possible
+    deadline), 'after' (started >= 0.25 s before the earliest possible deadline and its nominal end is >= 0.25 s
+    after the latest possible one = first job start of the call + t), else 'either'.  -> (class, dl_lo, dl_hi)"""
+    tl = obs["timeline"]
+    k = None
+    for idx, (t0, dl) in enumerate(tl):
+        if t0 <= rl["start"] + 1e-12:
+            k = idx
+    if k is None or tl[k][1] is None:
+        return "none", None, None
+    t0, dl_lo = tl[k]
+    t1 = tl[k + 1][0] if k + 1 < len(tl) else float("inf")
+    starts = [r["start"] for r in obs["runlog"].values() if t0 <= r["start"] < t1]
+    dl_hi = min(starts) + (dl_lo - t0)
+    m, p = scn["specs"][i] if i < len(scn["specs"]) else (0, 1)
+    f = rl["start"] + m * p * scn["unit"]
+    if "ret" in rl and rl["ret"] <= dl_lo - 0.25:
+        return "before", dl_lo, dl_hi
+    if rl["start"] <= dl_lo - 0.25 and f >= dl_hi + 0.25:
+        return "after", dl_lo, dl_hi
+    return "either", dl_lo, dl_hi
+
+
 def _deadline_for(timeline, t):
     d = None
     for (t0, dl) in timeline:
@@ -405,7 +430,6 @@ def oracle(scn, obs):
             if missing:
                 bad.append(("submitted-job-missing-from-results", entry, {"missing": missing}))
     # (C) classification
-    margin = 0 if serial else 0.25
     for i, rl in sorted(runlog.items()):
         m, p = specs[i] if i < len(specs) else (0, 1)
         reads = [r[1] for r in rl["reads"]]
@@ -428,12 +452,11 @@ def oracle(scn, obs):
             before, after, started_before = f < c, f > c, s < c
             info.update(start=s, deadline=c, natural_finish=f)
         else:
-            unit = scn["unit"]
-            f = rl["start"] + m * p * unit
-            before, after = f < dl - margin, f > dl + margin
-            started_before = rl["start"] < dl - margin
-            info.update(start=round(rl["start"] - obs["timeline"][0][0], 3), deadline=round(dl - obs["timeline"][0][0], 3),
-                        natural_finish=round(f - obs["timeline"][0][0], 3))
+            cl, dl_lo, dl_hi = _realtime_class(scn, obs, i, rl)
+            before, after, started_before = cl == "before", cl == "after", True
+            z = obs["timeline"][0][0]
+            info.update(start=round(rl["start"] - z, 3), ret=round(rl.get("ret", 0) - z, 3), deadline_lo=round(dl_lo - z, 3),
+                        deadline_hi=round(dl_hi - z, 3), natural_finish=round(rl["start"] + m * p * scn["unit"] - z, 3))
         if before:
             if status != "DONE" or saw or (lg is not None and 3 in lg):
                 bad.append(("finished-before-deadline-not-DONE", entry, info))
@@ -766,26 +789,27 @@ def _check_one(ck, scn, obs, drv, do_shrink=True):
         if diff:
             ck.mismatch(case, {"impl_vs_model": diff})
     else:
-        # per-job replay of the status machine on observed start / deadline (jobs away from a tie only)
+        # per-job replay of the status machine for the jobs whose clause is certain (see _realtime_class)
         reqs, metas = [], []
-        unit = scn["unit"]
-        T00 = obs["timeline"][0][0]
         rows = {r["id"]: r for r in (obs["calls"][-1]["rows"] if obs["calls"] else [])}
         for i, rl in sorted(obs["runlog"].items()):
             if i not in rows or i >= len(scn["specs"]):
                 continue
-            m, p = scn["specs"][i]
-            dl = _deadline_for(obs["timeline"], rl["start"])
-            f = rl["start"] + m * p * unit
-            if dl is not None and (abs(f - dl) < 0.25 or abs(rl["start"] - dl) < 0.25):
+            cl, dl_lo, dl_hi = _realtime_class(scn, obs, i, rl)
+            if cl == "either":
                 ck.count("realtime:tie-zone-skipped")
                 continue
-            q = lambda x: int(round((x - T00) / unit))
-            # one sleep of the whole duration: only the classification is compared in real time
-            reqs.append({"W": 1, "hpo": True, "specs": [[1 if m else 0, max(1, q(f) - q(rl["start"])), False, i]],
-                         "ops": [{"op": "jobonly", "start": q(rl["start"]), "armed": None if dl is None else q(dl)}]})
-            metas.append((i, rows[i]))
-        for (i, row), rep in zip(metas, drv.ask_all(reqs)):
+            # ticks of 0.05 s from the job's start; one sleep covering what the job certainly did
+            q = lambda x: max(0, int(round((x - rl["start"]) / 0.05)))
+            if cl == "none":
+                spec, armed = [1, 1, False, i], None
+            elif cl == "before":
+                spec, armed = [1, max(1, q(rl["ret"])), False, i], q(dl_lo) + 1
+            else:
+                spec, armed = [1, q(dl_hi) + 4, False, i], q(dl_hi)
+            reqs.append({"W": 1, "hpo": True, "specs": [spec], "ops": [{"op": "jobonly", "start": 0, "armed": armed}]})
+            metas.append((i, rows[i], cl))
+        for (i, row, cl), req, rep in zip(metas, reqs, drv.ask_all(reqs)):
             mj = rep["jobs"][0]
             lg = logs.get(i)
             d = {}
@@ -793,9 +817,9 @@ def _check_one(ck, scn, obs, drv, do_shrink=True):
                 d["status"] = (row["status"], mj["status"])
             if lg is not None and lg != mj["log"]:
                 d["log"] = (lg, mj["log"])
-            ck.count("realtime:job-replayed")
+            ck.count("realtime:job-replayed:" + cl)
             if d:
-                ck.mismatch(case, {"job": i, "impl_vs_model": d, "request": reqs[metas.index((i, row))]})
+                ck.mismatch(case, {"job": i, "class": cl, "impl_vs_model": d, "request": req})
 
 
 def _corpus():
@@ -840,10 +864,15 @@ def run(ck):
     if ck.thorough:
         import concurrent.futures as cf
 
-        chunks = [serial[i::16] for i in range(16)] + [[s] for s in real]
+        chunks = [serial[i::16] for i in range(16)]
         with cf.ProcessPoolExecutor(max_workers=16) as ex:
             res = list(ex.map(_run_chunk, chunks))
         pairs = [(s, o) for ch, os_ in zip(chunks, res) for s, o in zip(ch, os_)]
+        # real-time scenarios afterwards, few at a time: they should not compete with the batch above for the CPUs
+        rchunks = [[s] for s in real]
+        with cf.ProcessPoolExecutor(max_workers=4) as ex:
+            res = list(ex.map(_run_chunk, rchunks))
+        pairs += [(s, o) for ch, os_ in zip(rchunks, res) for s, o in zip(ch, os_)]
     else:
         pairs = [(s, run_scenario(s)) for s in serial]
         vloop.uninstall()
@@ -867,3 +896,18 @@ def replay(ck, case):
     print("replay:", json.dumps(brief, default=str)[:3000])
     with ck.driver() as drv:
         _check_one(ck, scn, obs, drv, do_shrink=False)
+
+
+def search(ck):
+    """deeper failing-input search (L3 only) when L1/L2 broke and run() found no failing input"""
+    from . import vloop
+
+    scns = gen_search(ck, ck.pick(400, 3000)) + gen_evaluator(ck, ck.pick(400, 3000))
+    for scn in scns:
+        scn["src"] = "search()"
+        obs = run_scenario(scn)
+        for clause, entry, detail in oracle(scn, obs)[:1]:
+            s2 = shrink(scn, clause)
+            o2 = obs if s2 is scn else run_scenario(s2)
+            ck.fail(fingerprint(clause, entry, s2), f"{clause} ({entry})", _case_of(s2, o2), {"detail": detail})
+    vloop.uninstall()
